@@ -51,6 +51,8 @@ func (*timeScalar) CoerceIn(v interface{}) (interface{}, error) {
 		var t time.Time
 		if t, err = time.Parse(time.RFC3339Nano, tv); err == nil {
 			v = t
+		} else {
+			v = nil
 		}
 	case time.Time:
 		// Ok as is.
@@ -77,7 +79,9 @@ func (t *timeScalar) CoerceOut(v interface{}) (interface{}, error) {
 	case int64:
 		tt = time.Unix(0, tv*int64(time.Second)).In(time.UTC)
 	case string:
-		tt, err = time.Parse(time.RFC3339Nano, tv)
+		if tt, err = time.Parse(time.RFC3339Nano, tv); err != nil {
+			v = nil
+		}
 	case time.Time:
 		tt = tv
 	default:
